@@ -208,6 +208,38 @@ def make_idle_timeout(framing):
     return idle
 
 
+def make_peers(frontend, burst):
+    """datagram front-ends with two peers: A writes register 0, B reads register 1; the datagrams arrive one after
+    the other (burst: back-to-back, before the server's handler task runs). Each peer must be sent exactly the reply
+    to its own request, whoever else is talking to the server"""
+    def peers(t: bytes, v: bytes, st: bytes) -> bool:
+        assume(len(t) == 4 and len(v) == 2 and len(st) == 12)
+        fa = adu.ref_adu("tcp", bytes([6, 0, 0, v[0], v[1]]), 1, t[0:2])
+        fb = adu.ref_adu("tcp", bytes([3, 0, 1, 0, 1]), 1, t[2:4])
+        A, B = ("10.0.0.1", 40001), ("10.0.0.2", 40002)
+        s0, c0 = _fresh(st)
+        ra = SL.drive(frontend, "tcp", c0, [fa])
+        rb = SL.drive(frontend, "tcp", c0, [fb])           # (B reads a cell A does not write)
+        if len(ra.written) != 1 or len(rb.written) != 1:
+            return False
+        s1, c1 = _fresh(st)
+        r = SL.drive(frontend, "tcp", c1, [fa, fb], peers=[A, B], burst=burst)
+        if r.escaped is not None or r.twisted_dropped is not None:
+            explain("exception: %r", r.escaped or r.twisted_dropped)
+            return False
+        to_a = [d for (addr, d) in r.sent_to if addr == A]
+        to_b = [d for (addr, d) in r.sent_to if addr == B]
+        if len(to_a) + len(to_b) != len(r.sent_to):
+            explain("a datagram was sent to neither peer: %r", r.sent_to)
+            return False
+        if len(to_a) != 1 or len(to_b) != 1:
+            explain("datagrams sent to A: %d, to B: %d", len(to_a), len(to_b))
+            return False
+        return same(to_a[0], ra.written[0], "reply sent to peer A") and same(to_b[0], rb.written[0], "reply sent to peer B") and \
+            same(SL.dump(s1), SL.dump(s0), "datastore")
+    return peers
+
+
 def make_iso(frontend):
     def iso(t: bytes, v: bytes, st: bytes) -> bool:
         assume(len(t) == 4 and len(v) == 4 and len(st) == 12)
@@ -268,6 +300,10 @@ def obligations(tier):
     for fr in ("ascii", "tcp"):
         out.append(Obl("idle-timeout.sync-tcp.%s" % fr, make_idle_timeout(fr), timeout=T, contracts=CONTRACTS[fr], lemmas=LEMMAS[fr],
                        bounds="synchronous stream handler, %s framer: recv() time-outs before the first request and between requests%s; values, tids, initial store symbolic" % (fr, " and a request split in two reads" if fr == "ascii" else "")))
+    for fe in ("sync-udp", "asyncio-udp", "twisted-udp"):
+        for burst in ((True,) if fe == "asyncio-udp" else (False,)) + ((False,) if fe == "asyncio-udp" else ()):
+            out.append(Obl("peers.%s.%s" % (fe, "back-to-back" if burst else "spaced"), make_peers(fe, burst), timeout=T,
+                           bounds="%s: two peers, one datagram each (FC6 with symbolic value / FC3), %s; tids and initial store symbolic; each peer is sent exactly the reply to its own request" % (fe, "delivered back-to-back before the handler task runs" if burst else "one at a time")))
     for fe in ("sync-tcp", "asyncio-tcp", "twisted-tcp"):
         out.append(Obl("iso.%s" % fe, make_iso(fe), timeout=T, contracts=("lrc",), lemmas=("K2",),
                        bounds="%s with the ASCII framer: connection A's frame split in two reads with connection B's two requests in between; values, tids and initial store symbolic" % fe))
